@@ -301,6 +301,7 @@ func c02Walk(g c02Cfg, vis func(pages int, vacuous bool)) (sig, msg string, reqs
 	content := g.content()
 	maxPages := len(g.Rows) + 3
 	var pages []c02Page
+	beyondRefused := false
 	in := ""
 	for i := 0; i <= maxPages; i++ {
 		r := s.Request([]byte(in))
@@ -329,6 +330,7 @@ func c02Walk(g c02Cfg, vis func(pages int, vacuous bool)) (sig, msg string, reqs
 			if r.Out != "" && !isCatch(r) && r.FlushErr == "" && r.ExecErr == "" {
 				return "past-end-content", fmt.Sprintf("page %d (past the end) answered with %q", i, r.Out), reqs
 			}
+			beyondRefused = i > 0 && r.FlushErr != "" && r.ExecErr == "" && !isCatch(r) && g.Prev
 			break
 		}
 		if len(r.Out) > int(g.Size) {
@@ -381,6 +383,20 @@ func c02Walk(g c02Cfg, vis func(pages int, vacuous bool)) (sig, msg string, reqs
 	}
 	if vis != nil {
 		vis(n, false)
+	}
+	// the request one step beyond the end was refused with a render error (not answered by the catch page): in the
+	// SAME session 'previous' leads back to the last page, and from there all the way to page 0
+	if beyondRefused && n >= 2 {
+		for i := n - 1; i >= 0; i-- {
+			r := s.Request([]byte("22"))
+			reqs++
+			if r.Panic != "" {
+				return "panic", fmt.Sprintf("back to page %d after the refused step beyond the end: panic %s", i, r.Panic), reqs
+			}
+			if r.ExecErr != "" || r.FlushErr != "" || r.Out != pages[i].raw {
+				return "previous-after-refused-next-differs", fmt.Sprintf("after the refused step beyond the last page, going back to page %d gives %q (exec=%q flush=%q), the forward walk gave %q", i, r.Out, r.ExecErr, r.FlushErr, pages[i].raw), reqs
+			}
+		}
 	}
 	// the session is now on the catch page (one step beyond the end) or in error. Walk back with a
 	// fresh session positioned on the last page.
